@@ -359,6 +359,11 @@ func c20KindOf(v interface{}) reflect.Kind {
 
 // c20Accepts: independent reference for "pattern kind pk accepts the tested value".
 func c20Accepts(pk int, tested interface{}, eqConst int) bool {
+	return c20AcceptsEq(pk, tested, eqConst, 0)
+}
+
+// eqKind: what the equality pattern holds - 0: the int eqConst, 1: nil, 2: a nil *int, 3: the string "abc"
+func c20AcceptsEq(pk int, tested interface{}, eqConst int, eqKind int) bool {
 	absent := tested == nil
 	if p, ok := tested.(*int); ok && p == nil {
 		absent = true
@@ -371,7 +376,17 @@ func c20Accepts(pk int, tested interface{}, eqConst int) bool {
 			return len(cd.objects) == 2 // the only CompData probes are (int, string) products
 		}
 		return absent // a single value matches the sum only through NilType
-	case 2: // InCaseOfEqual(eqConst)
+	case 2: // InCaseOfEqual(...): plain == on the two interface values
+		switch eqKind {
+		case 1:
+			return tested == nil
+		case 2:
+			p, ok := tested.(*int)
+			return ok && p == nil
+		case 3:
+			s, ok := tested.(string)
+			return ok && s == "abc"
+		}
 		i, ok := tested.(int)
 		return ok && i == eqConst
 	case 3: // InCaseOfRegex
@@ -388,6 +403,7 @@ func vh_C20_MatchFor() {
 	// an ordered subset of the five pattern kinds
 	n := vfRange("patterns", 0, 3+2*vfTier())
 	used := [5]bool{}
+	eqKind := 0
 	var kinds []int
 	var pats []Pattern
 	for i := 0; i < n; i++ {
@@ -405,7 +421,9 @@ func vh_C20_MatchFor() {
 		case 1:
 			pats = append(pats, InCaseOfSumType(sumT, eff))
 		case 2:
-			pats = append(pats, InCaseOfEqual(eqConst, eff))
+			// the equality pattern holds a comparable value: a number, nil, a typed nil pointer or a string
+			eqKind = vfChoose("equal-holds", 4)
+			pats = append(pats, InCaseOfEqual([]interface{}{eqConst, nil, (*int)(nil), "abc"}[eqKind], eff))
 		case 3:
 			pats = append(pats, InCaseOfRegex(c20Regex, eff))
 		default:
@@ -415,7 +433,7 @@ func vh_C20_MatchFor() {
 	probe, tested := c20Probe(vfChoose("probe", 11), sumT)
 	want := -1
 	for i, pk := range kinds {
-		if c20Accepts(pk, tested, eqConst) {
+		if c20AcceptsEq(pk, tested, eqConst, eqKind) {
 			want = i
 			break
 		}
